@@ -68,7 +68,6 @@ type c18Scenario struct {
 }
 
 var c18ErrGetBody = errors.New("c18 GetBody failure")
-var c18ErrBuilder = errors.New("c18 builder failure")
 
 func c18PipeErrName(err error) string {
 	if err == nil {
@@ -78,14 +77,15 @@ func c18PipeErrName(err error) string {
 	if !strings.HasPrefix(n, "other(") {
 		return n
 	}
+	pr := c18Probes()
 	switch {
 	case errors.Is(err, c18ErrGetBody):
 		return "getbody"
-	case errors.Is(err, c18ErrBuilder) || strings.Contains(err.Error(), c18ErrBuilder.Error()):
+	case pr.builder != nil && err.Error() == pr.builder.Error():
 		return "builder"
-	case errors.Is(err, errRetryableWithUnReplayableBody):
+	case pr.unreplay != nil && errors.Is(err, pr.unreplay):
 		return "unreplay"
-	case errors.Is(err, errDigestBadChallenge), errors.Is(err, errDigestUnreplayable):
+	case (pr.digestBad != nil && errors.Is(err, pr.digestBad)) || (pr.digestUnreplay != nil && errors.Is(err, pr.digestUnreplay)):
 		return "digest"
 	}
 	var ue *url.Error
@@ -93,6 +93,48 @@ func c18PipeErrName(err error) string {
 		return "builtin"
 	}
 	return n
+}
+
+// c18Probes obtains the library's own sentinel errors by provoking them once through the real
+// code paths (no dependence on the names of unexported variables).
+type c18ProbeErrs struct{ builder, unreplay, digestBad, digestUnreplay error }
+
+var c18ProbeOnce sync.Once
+var c18ProbeVal c18ProbeErrs
+
+func c18Probes() *c18ProbeErrs {
+	c18ProbeOnce.Do(func() {
+		answer := func(chal string) *Client {
+			c := C()
+			c.GetClient().Transport = rtFuncC18(func(r *http.Request) (*http.Response, error) {
+				h := http.Header{}
+				if chal != "" {
+					h.Set("Www-Authenticate", chal)
+				}
+				return &http.Response{StatusCode: 401, Status: "401 X", Proto: "HTTP/1.1", ProtoMajor: 1, ProtoMinor: 1, Header: h,
+					Body: io.NopCloser(strings.NewReader("")), Request: r}, nil
+			})
+			return c
+		}
+		c18ProbeVal.builder = C().R().SetFileUpload(FileUpload{}).Do().Err
+		c18ProbeVal.unreplay = C().R().SetRetryCount(1).SetBody(io.NopCloser(strings.NewReader("x"))).SetURL("http://c18.test/").Do().Err
+		c18ProbeVal.digestBad = unwrapAll(answer("").R().SetDigestAuth("u", "p").SetURL("http://c18.test/").Do().Err)
+		r := answer(c18Challenge).R().SetDigestAuth("u", "p").SetBody(io.NopCloser(strings.NewReader("x")))
+		r.Method = "POST"
+		c18ProbeVal.digestUnreplay = unwrapAll(r.SetURL("http://c18.test/").Do().Err)
+	})
+	return &c18ProbeVal
+}
+
+func unwrapAll(err error) error {
+	for err != nil {
+		u := errors.Unwrap(err)
+		if u == nil {
+			return err
+		}
+		err = u
+	}
+	return err
 }
 
 func c18HTTPHeader(h *c18Http, tag int, challenge string) http.Header {
@@ -222,6 +264,8 @@ type c18Obs struct {
 	erT          c18E
 	unmCalls     []c18UnmCall
 	builtBefore  bool // a request middleware saw RawRequest already built in the first attempt
+	builtinFirst bool // a user request middleware saw Request.URL already parsed in the first attempt
+	noBuiltin    bool // a later stage ran although Request.URL was never parsed
 	nilRespSeen  bool // a request-level response middleware was handed a nil *Response
 }
 
@@ -271,8 +315,29 @@ func c18Run(sc *c18Scenario) *c18Obs {
 	}
 	ev := func(s string) { touch(); o.logs[att()] = append(o.logs[att()], s) }
 	raise := func(s string) { touch(); o.raised[att()] = append(o.raised[att()], s) }
+	// "b" = the built-in request middleware block completed: recorded when the first stage that
+	// can only run after it (wrapper, GetBody, exchange, request-level response middleware) is
+	// entered — no marker is planted inside the client's (unexported) middleware list. That the
+	// block really ran, and ran AFTER the user middleware, is observed through Request.URL,
+	// which only the built-in block assigns (builtinFirst / noBuiltin below).
+	bDone := map[int]bool{}
+	lateAt := func(a int) {
+		if !bDone[a] {
+			bDone[a] = true
+			for len(o.logs) <= a {
+				o.logs = append(o.logs, nil)
+				o.raised = append(o.raised, nil)
+			}
+			o.logs[a] = append(o.logs[a], "b")
+			if req != nil && req.URL == nil {
+				o.noBuiltin = true
+			}
+		}
+	}
+	late := func() { lateAt(att()) }
 	// the loopback origin logs from its own goroutine, with the attempt index it counted itself
 	evAt := func(a int, s string) {
+		lateAt(a)
 		for len(o.logs) <= a {
 			o.logs = append(o.logs, nil)
 			o.raised = append(o.raised, nil)
@@ -367,7 +432,8 @@ func c18Run(sc *c18Scenario) *c18Obs {
 		sc.e2e = strings.TrimSuffix(sc.e2e, "/") + "/c/" + id
 	} else {
 		// first exchange of every attempt: the http.Client's transport
-		c.httpClient.Transport = rtFuncC18(func(r *http.Request) (*http.Response, error) {
+		c.GetClient().Transport = rtFuncC18(func(r *http.Request) (*http.Response, error) {
+			late()
 			ev("t")
 			a := att()
 			t := c18At(sc.transport, a, c18TOut{fail: 0})
@@ -407,6 +473,9 @@ func c18Run(sc *c18Scenario) *c18Obs {
 			if r.RetryAttempt == 0 && r.RawRequest != nil {
 				o.builtBefore = true
 			}
+			if r.RetryAttempt == 0 && r.URL != nil {
+				o.builtinFirst = true
+			}
 			act := c18At(sc.udReq[i], att(), c18Act{kind: "o"})
 			if act.kind == "f" {
 				raise(c18ErrArg(act.e))
@@ -430,8 +499,6 @@ func c18Run(sc *c18Scenario) *c18Obs {
 		}
 		return nil
 	})
-	// marker at the end of the built-in request middleware block
-	c.beforeRequest = append(c.beforeRequest, func(*Client, *Request) error { ev("b"); return nil })
 	// wrapping round-trippers
 	fresh := map[*Response]bool{}
 	var wfuncs []RoundTripWrapperFunc
@@ -439,6 +506,7 @@ func c18Run(sc *c18Scenario) *c18Obs {
 		i := i
 		wfuncs = append(wfuncs, func(rt RoundTripper) RoundTripFunc {
 			return func(r *Request) (*Response, error) {
+				late()
 				ev("w" + strconv.Itoa(i))
 				act := c18At(sc.wrappers[i], att(), c18Act{kind: "p"})
 				e := c18Sentinels[act.e]
@@ -487,7 +555,8 @@ func c18Run(sc *c18Scenario) *c18Obs {
 	default:
 		var ws []RoundTripWrapper
 		for _, w := range wfuncs {
-			ws = append(ws, w.wrapper())
+			w := w
+			ws = append(ws, func(rt RoundTripper) RoundTripper { return w(rt) })
 		}
 		k := len(ws) / 2
 		c.WrapRoundTrip(ws[:k]...)
@@ -542,11 +611,12 @@ func c18Run(sc *c18Scenario) *c18Obs {
 		}
 		if isDigest {
 			// log wrapper + the real middleware, registered as ONE stage
-			req.OnAfterResponse(func(*Client, *Response) error { ev("r" + strconv.Itoa(i)); return nil })
+			req.OnAfterResponse(func(*Client, *Response) error { late(); ev("r" + strconv.Itoa(i)); return nil })
 			req.SetDigestAuth("u", "p")
 			continue
 		}
 		req.OnAfterResponse(func(_ *Client, resp *Response) error {
+			late()
 			ev("r" + strconv.Itoa(i))
 			if resp == nil {
 				o.nilRespSeen = true
@@ -581,6 +651,7 @@ func c18Run(sc *c18Scenario) *c18Obs {
 	}
 	if needBody {
 		req.SetBody(func() (io.ReadCloser, error) {
+			late()
 			if c18At(sc.getBody, att(), false) {
 				raise("getbody")
 				return nil, c18ErrGetBody
@@ -592,7 +663,7 @@ func c18Run(sc *c18Scenario) *c18Obs {
 		req.SetBody(io.NopCloser(strings.NewReader("stream")))
 	}
 	if sc.builderErr {
-		req.appendError(c18ErrBuilder)
+		req.SetFileUpload(FileUpload{}) // a setter that records an error (missing param name)
 	}
 	method := "POST"
 	verb := c18Verbs[sc.verb%len(c18Verbs)]
@@ -733,7 +804,7 @@ func (o *c18Obs) answer(sc *c18Scenario) string {
 		es = "?"
 	}
 	return "ret err=" + c18PipeErrName(o.err) + " hooks=" + strconv.Itoa(o.hooks) + " rerr=" + c18PipeErrName(r.Err) + " http=" + tag +
-		" status=" + st + " state=" + state + " cached=" + c18b(r.body != nil) + " res=" + c18b(r.SuccessResult() != nil) + " eslot=" + es + " log=" + log
+		" status=" + st + " state=" + state + " cached=" + c18b(r.Bytes() != nil) + " res=" + c18b(r.SuccessResult() != nil) + " eslot=" + es + " log=" + log
 }
 
 func c18Suppressing(sc *c18Scenario) bool {
@@ -884,6 +955,12 @@ func (o *c18Obs) oracle(sc *c18Scenario) string {
 func (o *c18Obs) orderOracle(sc *c18Scenario) string {
 	if o.builtBefore {
 		return "a request middleware ran after the http request had been built"
+	}
+	if o.builtinFirst {
+		return "the built-in request middleware ran before a user request middleware"
+	}
+	if o.noBuiltin {
+		return "the pipeline went on without the built-in request middleware"
 	}
 	for a, l := range o.logs {
 		phase := 0 // 0 = request mws, 1 = built-in done, 2 = wrappers, 3 = sent, 4 = client resp, 5 = request-level resp
